@@ -6,6 +6,7 @@ import (
 	"os"
 	"path/filepath"
 	"runtime/debug"
+	"sort"
 	"strings"
 	"time"
 
@@ -303,6 +304,48 @@ func (h *Hist) checkReadPaths(when string) {
 	for k := range h.Model.KV {
 		keys[k] = true
 	}
+	// a sixth read path: position an iterator with SeekTo (ascending keys are
+	// forward seeks; every third key seeks back to the start first)
+	seekView := map[string][]byte{}
+	{
+		ks := make([]string, 0, len(keys))
+		for k := range keys {
+			ks = append(ks, k)
+		}
+		sort.Strings(ks)
+		sit, err := snap.StartIterator(nil, nil, moss.IteratorOptions{})
+		if err != nil || sit == nil {
+			h.Failf("%s: StartIterator: %v", when, err)
+		}
+		for i, k := range ks {
+			if i%3 == 2 {
+				if err := sit.SeekTo([]byte{}); err != nil && err != moss.ErrIteratorDone {
+					sit.Close()
+					h.Failf("%s: SeekTo(\"\"): %v", when, err)
+				}
+			}
+			err := sit.SeekTo([]byte(k))
+			if err == moss.ErrIteratorDone {
+				continue
+			}
+			if err != nil {
+				sit.Close()
+				h.Failf("%s: SeekTo(%q): %v", when, k, err)
+			}
+			ck, cv, err := sit.Current()
+			if err == nil && string(ck) == k {
+				if cv == nil {
+					sit.Close()
+					h.Failf("%s: SeekTo(%q) lands on the key with a nil value", when, k)
+				}
+				seekView[k] = append([]byte{}, cv...)
+			} else if err == nil && ck == nil {
+				sit.Close()
+				h.Failf("%s: after SeekTo(%q) Current returns a nil key without ErrIteratorDone", when, k)
+			}
+		}
+		sit.Close()
+	}
 	render := func(v []byte) string {
 		if v == nil {
 			return "nil"
@@ -311,8 +354,8 @@ func (h *Hist) checkReadPaths(when string) {
 	}
 	for ks := range keys {
 		k := []byte(ks)
-		var obs [5][]byte
-		var names = [5]string{"Collection.Get", "Collection.Get(NoCopyValue)", "Snapshot.Get", "Snapshot.Get(NoCopyValue)", "iteration"}
+		var obs [6][]byte
+		var names = [6]string{"Collection.Get", "Collection.Get(NoCopyValue)", "Snapshot.Get", "Snapshot.Get(NoCopyValue)", "iteration", "iterator SeekTo"}
 		var e [4]error
 		obs[0], e[0] = h.Coll.Get(k, moss.ReadOptions{})
 		obs[1], e[1] = h.Coll.Get(k, moss.ReadOptions{NoCopyValue: true})
@@ -324,16 +367,17 @@ func (h *Hist) checkReadPaths(when string) {
 			}
 		}
 		obs[4] = iterView[ks]
-		for i := 1; i < 5; i++ {
+		obs[5] = seekView[ks]
+		for i := 1; i < 6; i++ {
 			if (obs[i] == nil) != (obs[0] == nil) || !bytes.Equal(obs[i], obs[0]) {
 				mv, ok := h.Model.KV[ks]
 				ms := "absent"
 				if ok {
 					ms = fmt.Sprintf("%q", short(mv))
 				}
-				h.Failf("%s: read paths disagree on key %q: %s=%s but %s=%s (all: %s %s %s %s %s; reference: %s)",
+				h.Failf("%s: read paths disagree on key %q: %s=%s but %s=%s (all: %s %s %s %s %s %s; reference: %s)",
 					when, k, names[0], render(obs[0]), names[i], render(obs[i]),
-					render(obs[0]), render(obs[1]), render(obs[2]), render(obs[3]), render(obs[4]), ms)
+					render(obs[0]), render(obs[1]), render(obs[2]), render(obs[3]), render(obs[4]), render(obs[5]), ms)
 			}
 		}
 		if obs[0] != nil && len(h.retainedVals) < 64 {
